@@ -160,7 +160,7 @@ Print Assumptions C06_join_outputs_ledger.
 From FB Require Import JoinPanic.
 Theorem C06_output_stored_before_the_future_is_destroyed_is_drop_safe :
   forall (n : nat) (ms : list mstep) (s : jst),
-  before MWrite MVacate ms = true -> reach n ms s -> DS n s.
+  no_split ms = true -> before MWrite MVacate ms = true -> reach n ms s -> DS n s.
 Proof. exact write_before_vacate_is_drop_safe. Qed.
 Print Assumptions C06_output_stored_before_the_future_is_destroyed_is_drop_safe.
 
